@@ -118,7 +118,14 @@ def one_case(rng, res, family):
             # likewise for a validly signed link file whose content is not link metadata: refused when loaded (traditional)
             # or when first used (envelope) - possibly never, if its signature is not asked for; what must agree is whether
             # the verification is accepted
-            same = len({o.get("verdict") == "accept" for o in outs.values()}) == 1
+            if family == "illformed":
+                same = len({o.get("verdict") == "accept" for o in outs.values()}) == 1
+            else:
+                # (drawn among other files by the C02 generator: the ill-formed file may lie under a name / carry a signature
+                #  that does not count; a traditional file is then refused at load all the same, an envelope is never opened
+                #  - the documented asymmetry of DESIGN 4.3 / 10.3, not judged)
+                same = True
+                res.count("illformed_file_that_does_not_count_not_judged")
         res.case({"desc": desc, "outcomes": {k: {"verdict": v.get("verdict"), "log": v.get("log")} for k, v in outs.items()}},
                  True, agreed_all)
         res.evaluations += 2
